@@ -199,6 +199,9 @@ func treeAlphabet(r *Rng, t *Tree, extra []File) []Op {
 	// dot access where the data has the exact spelling AND the capitalised one, after data that has only the latter
 	ops = append(ops, Op{Kind: "string", Name: "dotpage", Data: mk([]string{"user"}, Val{T: "map", K: []string{"name", "Name", "age", "Age"}, V: []Val{VStr("low"), VStr("UP"), VInt(1), VInt(2)}})},
 		Op{Kind: "string", Name: "dotpage", Data: mk([]string{"user"}, Val{T: "map", K: []string{"Name", "Age"}, V: []Val{VStr("OnlyUp"), VInt(3)}})})
+	// a page asked for under its name WITH the extension (not a registered name), more than once
+	ops = append(ops, Op{Kind: "string", Name: "pagefail" + t.Cfg.Ext, Data: nil}, Op{Kind: "response", Name: "comppage" + t.Cfg.Ext, Data: nil},
+		Op{Kind: "string", Name: "./pagefail", Data: nil})
 	// data the conversion rejects (a reserved name), on two different pages and through the string API
 	bad := mk([]string{"n1", "loop"}, VInt(1), VInt(2))
 	ops = append(ops, Op{Kind: "string", Name: "dotpage", Data: bad}, Op{Kind: "string", Name: "rowpage", Data: bad},
